@@ -305,7 +305,10 @@ class PeriodicGrid(Grid):
         # Compute the minimal and maximal values of the fractional coordinates.
         # These are the intervals spanned by the fractional coordinates along
         # each lattice vector: ``frac_intvls``.
-        if points.ndim == 1 and realvecs.size > 0:
+        if len(points) == 0:
+            # no points: the fractional extent is empty (an empty selection of a periodic grid)
+            frac_intvls = np.zeros((ncellvec, 2))
+        elif points.ndim == 1 and realvecs.size > 0:
             frac_intvls = np.array([[frac_points.min(), frac_points.max()]])
         else:
             frac_intvls = np.array([frac_points.min(axis=0), frac_points.max(axis=0)]).T
